@@ -32,7 +32,8 @@ SPEC = {
 }
 
 ALGS = ["PowerMethod", "GradientMethod", "GradientMethod-acc", "GradientMethod-box-acc",
-        "ConjugateGradient", "ConjugateGradient-b0", "ConjugateGradient-xstar", "PDHG",
+        "ConjugateGradient", "ConjugateGradient-b0", "ConjugateGradient-xstar",
+        "ConjugateGradient-illcond", "PDHG",
         "PDHG-acc", "PDHG-zero-l1-smallsigma", "PDHG-zero-box", "AltMin",
         "AugmentedLagrangianMethod", "ADMM", "SDMM", "SDMM-norm", "NewtonsMethod",
         "NewtonsMethod-bt", "GerchbergSaxton", "GradientMethod-sol0"]
@@ -113,6 +114,15 @@ def make_alg(kind, rng, mi):
         H = M.conj().T @ M + 0.1 * np.eye(n)
         b = M.conj().T @ y
         x = np.zeros(n, H.dtype)
+        if kind.endswith("illcond"):
+            # slow convergence: the residual passes through every small value long before
+            # the solution is reached, so a stop at "small" (not zero) residual is premature
+            n = 12
+            Q, _ = np.linalg.qr(crandn(rng, [n, n], np.complex128 if cplx else np.float64))
+            H = (Q * np.geomspace(1.0, 1e4, n)) @ Q.conj().T
+            H = (H + H.conj().T) / 2
+            b = crandn(rng, [n], H.dtype)
+            x = np.zeros(n, H.dtype)
         if kind.endswith("b0"):
             b = np.zeros(n, H.dtype)
         elif kind.endswith("xstar"):
